@@ -405,8 +405,29 @@ def char_classes(fn_body):
     """representatives of the partition of `char` that the code can distinguish: every character literal it mentions
     and, for every integer it compares a code point with, that value and its neighbours; plus fixed probes"""
     from astlib import walk
-    reps = {0x22, 0x5c, 0x0a, 0x0d, 0x09, 0x00, 0x01, 0x08, 0x0c, 0x1f, 0x20, 0x21, 0x2f, 0x3c, 0x3e, 0x26, 0x27, 0x61, 0x7f, 0x80, 0x9f, 0xa0, 0x2028, 0x2029, 0x202a, 0xfffd, 0x1f600}
-    for n in walk(fn_body):
+    reps = {0x22, 0x5c, 0x0a, 0x0d, 0x09, 0x00, 0x01, 0x08, 0x0c, 0x1f, 0x20, 0x21, 0x2f, 0x3c, 0x3e, 0x26, 0x27, 0x61, 0x7f, 0x80, 0x9f, 0xa0, 0xad, 0x200b, 0x2028, 0x2029, 0x202a, 0xfeff, 0xfffd,
+            0xffff, 0x10000, 0x1f600, 0xe0001, 0xe0067, 0xe0100, 0x10ffff}
+    # the code of the helpers the function calls (a predicate such as `is_special(c)`) distinguishes characters too
+    bodies = [fn_body]
+    try:
+        from rules import absint as _absint
+        seen = set()
+        k = 0
+        while k < len(bodies) and _absint.PROGRAM is not None:
+            for n in walk(bodies[k]):
+                nm = None
+                if n["k"] == "Call" and is_node(n.get("func")) and n["func"]["k"] == "Path":
+                    nm = n["func"]["path"].split("::")[-1]
+                elif n["k"] == "MethodCall":
+                    nm = n["method"]
+                for f in (_absint.PROGRAM.by_name.get(nm, []) if nm and nm not in seen else []):
+                    if f.body is not None and len(bodies) < 12:
+                        bodies.append(f.body)
+                seen.add(nm)
+            k += 1
+    except Exception:  # noqa: BLE001
+        pass
+    for n in (x for b_ in bodies for x in walk(b_)):
         txts = []
         if n["k"] in ("Lit", "PLit"):
             txts.append(n["text"])
@@ -425,8 +446,13 @@ def escaper_table(loop_body, var_pat, reps, fixed_inputs=None):
     """{code point: text written for that character | 'UNKNOWN: ..'}: the per-character body of an escaping loop is
     evaluated for every representative character"""
     out = {}
+    try:
+        from rules import absint as _absint     # the full evaluator: helper predicates the loop calls are interpreted too
+        mk = lambda: _absint.AEval(inputs=list(fixed_inputs or []))  # noqa: E731
+    except Exception:  # noqa: BLE001
+        mk = lambda: Eval(list(fixed_inputs or []))  # noqa: E731
     for cp in reps:
-        ev = Eval(list(fixed_inputs or []))
+        ev = mk()
         env = {}
         b = ev.pat(var_pat, ("char", cp), {})
         env.update(b or {})
